@@ -137,6 +137,8 @@ def gen_case(rng, k):
     elif (k // 6) % 3 == 2:   # earlier use for a larger frame
         q["prior_shapes"] = [[shape[0] + 2 * int(rng.integers(1, 5)) + int(rng.integers(0, 2)),
                               shape[1] + 2 * int(rng.integers(1, 5)) + int(rng.integers(0, 2))]]
+    if (k // 6) % 4 == 1:
+        q["wide_level"] = float(rng.choice([2.0 ** 30, 1e9, 2.0 ** 26]))
     if (k // 6) % 4 == 3:     # a run on a frame whose spectrum has the same shape (same height, width 2n <-> 2n+1) right before
         q["prior_runs"] = [[shape[0], shape[1] + 1 if shape[1] % 2 == 0 else shape[1] - 1]]
     return q
@@ -189,6 +191,24 @@ def run_case(kind, q):
                 i = int(np.argmax(err))
                 msgs.append(f"{pipeline}(upsample={us}) {q['pattern']['kind']} r={radius} shape {shape}: disk on pixel "
                             f"{p.tolist()}, start {starts[i].tolist()}: refined {ref[i].tolist()} off by {err[i]:.4f} > {tol:.4f}")
+    if q.get("wide_level"):
+        # the same disk as float64 data on a large constant level (a faint disk on a high pedestal), through the batch helpers
+        from libertem_blobfinder.common import correlation as cc
+        d = masks.circular(centerX=p[1], centerY=p[0], imageSizeX=shape[1], imageSizeY=shape[0], radius=radius, antialiased=True)
+        f64 = np.exp(q["amp"] * d.astype(np.float64)) - 1 + float(q["wide_level"])
+        for nm, fn in (("process_frames_fast", cc.process_frames_fast), ("process_frames_full", cc.process_frames_full)):
+            try:
+                outs = fn(pattern, f64[np.newaxis], starts)
+            except Exception as e:
+                msgs.append(f"{nm} on float64 data raised {type(e).__name__}: {e}")
+                continue
+            cen, ref = np.asarray(outs[0][0]), np.asarray(outs[1][0], dtype=np.float64)
+            if np.any(cen != p):
+                msgs.append(f"{nm} {q['pattern']['kind']} r={radius}: float64 frame on a level of {q['wide_level']:.3g}, disk on "
+                            f"pixel {p.tolist()}: centres {cen.tolist()}")
+            elif np.abs(ref - p).max() > 0.01 + 1e-6:
+                msgs.append(f"{nm} {q['pattern']['kind']} r={radius}: float64 frame on a level of {q['wide_level']:.3g}: refined "
+                            f"{ref.tolist()} off by {np.abs(ref - p).max():.4f}")
     return msgs[:6]
 
 
